@@ -202,6 +202,15 @@ Proof.
   exists 0. unfold code. cbn [map]. apply tr_use, tr_ret, tr_end_top.
 Qed.
 
+(* A FAILED Connect LEAVES THE CLIENT AS IT WAS (flag "connect_atomic" of the supporting run).
+   In the wire model Close and Connect -- failing or not -- are control calls CCtl: critical sections
+   that change neither the wire nor any reply.  C14_every_caller_gets_own_reply and
+   C14_wire_whole_frames_in_lock_order quantify over request lists with control calls anywhere, so
+   whatever Connect calls other goroutines make, every request call gets its own reply.  What the
+   code must do for this to apply -- not assign conn when the dial failed -- is seen by the skeleton:
+   the translator refuses (Unknown) a field assigned together with an error value, i.e. before the
+   error check, which fails client_skeleton_well_locked. *)
+
 (* HOOK CALLS ARE STEPS OF THE LOCK HOLDER (flag "hooks_atomic" of the supporting run).
    The user's ClientHooks object is reached through the field hooks, which LockModel classifies as a
    locked-use field: written once before the client is shared (configuration rule), and every read
